@@ -5,6 +5,7 @@
 //	setprobe save <dir> <namehex> <pubhex> <privhex> database.SaveEntity
 //	setprobe cfg  <dir> <idhex> <versionhex> <hashhex>   the three consecutive Sets of Config.save (config.go)
 //	setprobe start <dir> <pin> <name>                hc.NewIPTransport on the directory (one switch accessory), not started
+//	setprobe relstore <base> <rel> <keyhex> <valhex> chdir(base); NewFileStorage(rel); Set; chdir("/"); Get and list → stdout
 package main
 
 import (
@@ -46,6 +47,32 @@ func main() {
 			fmt.Fprintln(os.Stderr, "setprobe:", err)
 			os.Exit(1)
 		}
+		return
+	}
+	if os.Args[1] == "relstore" && len(os.Args) == 6 {
+		// a store opened with a relative path, used after the process changed its working directory
+		if err := os.Chdir(os.Args[2]); err != nil {
+			fmt.Fprintln(os.Stderr, "setprobe:", err)
+			os.Exit(3)
+		}
+		st, err := util.NewFileStorage(os.Args[3])
+		if err != nil {
+			fmt.Println("open-error", err)
+			return
+		}
+		key := string(unhex(os.Args[4]))
+		if err := st.Set(key, unhex(os.Args[5])); err != nil {
+			fmt.Println("set-error", err)
+			return
+		}
+		os.Chdir("/")
+		v, err := st.Get(key)
+		keys, _ := st.KeysWithSuffix("")
+		if err != nil {
+			fmt.Println("get-error", len(keys))
+			return
+		}
+		fmt.Println("got", hex.EncodeToString(v), len(keys))
 		return
 	}
 	st, err := util.NewFileStorage(os.Args[2])
